@@ -297,7 +297,7 @@ func toProxyReq(s *Search, offset, size int, fetch bool) *search.SearchRequest {
 		WithTotal: s.WithTotal, ShouldFetch: fetch, Order: order}
 	fn := map[string]seq.AggFunc{"count": seq.AggFuncCount, "sum": seq.AggFuncSum, "min": seq.AggFuncMin, "max": seq.AggFuncMax, "avg": seq.AggFuncAvg, "quantile": seq.AggFuncQuantile, "unique": seq.AggFuncUnique}
 	for _, a := range s.Aggs {
-		req.AggQ = append(req.AggQ, search.AggQuery{Field: a.Field, GroupBy: a.GroupBy, Func: fn[a.Func], Quantiles: a.Quantiles})
+		req.AggQ = append(req.AggQ, search.AggQuery{Field: a.Field, GroupBy: a.GroupBy, Func: fn[a.Func], Quantiles: a.Quantiles, Interval: seq.MID(a.Interval)})
 	}
 	return req
 }
@@ -381,7 +381,7 @@ func (r *clusterRunner) validate(label string) {
 				return
 			}
 			for i, a := range s.Aggs {
-				if msg := compareQPRAgg(a, &qpr.Aggs[i], model.Agg(want, a.Func, a.Field, a.GroupBy)); msg != "" {
+				if msg := checkQPRAgg(a, &qpr.Aggs[i], want); msg != "" {
 					r.violate("aggregation", "%s: proxy search %q agg %+v over %d shards: %s", label, s.Q.SeqQL(), a, r.c.HotShards, msg)
 					return
 				}
@@ -429,6 +429,26 @@ func compareIDs(got seq.IDSources, want []*model.Doc) string {
 		}
 	}
 	return ""
+}
+
+func checkQPRAgg(a simenv.AggReq, got *seq.AggregatableSamples, docs []*model.Doc) string {
+	if a.Interval > 0 && a.Func != "unique" {
+		var bins []tsBin
+		for bin, sc := range got.SamplesByBin {
+			if sc == nil {
+				continue
+			}
+			bins = append(bins, tsBin{Tok: bin.Token, MID: uint64(bin.MID), Total: sc.Total, Sum: sc.Sum, Min: sc.Min, Max: sc.Max, Samples: sc.Samples})
+		}
+		sort.Slice(bins, func(i, j int) bool {
+			if bins[i].MID != bins[j].MID {
+				return bins[i].MID < bins[j].MID
+			}
+			return bins[i].Tok < bins[j].Tok
+		})
+		return compareTS(a, bins, docs)
+	}
+	return compareQPRAgg(a, got, model.Agg(docs, a.Func, a.Field, a.GroupBy))
 }
 
 func compareQPRAgg(a simenv.AggReq, got *seq.AggregatableSamples, want *model.AggExpect) string {
